@@ -125,7 +125,9 @@ func createPresignedHttpRequestFromCtx(ctx *fiber.Ctx, signedHdrs []string, cont
 		body = bytes.NewReader(req.Body())
 	}
 
-	uri := string(ctx.Request().URI().Path())
+	// the path the signature is recomputed for is the path the handlers
+	// use (decoded once), not a second decoding of it
+	uri := ctx.Path()
 	uri = httpbinding.EscapePath(uri, false)
 	isFirst := true
 
